@@ -24,6 +24,15 @@ def _solve(args):
     seed, inst = args
     rng = random.Random(seed)
     tab = runner.scale_table(rng, near=rng.random() < 0.3)
+    if rng.random() < 0.2:
+        # an almost identical run earlier in the same process (same cards but another initial nf or one
+        # target fewer / another target nf): module-level state it leaves behind must not reach this run
+        sib = {"ms": list(inst["ms"]), "o": list(inst["o"]), "targets": [list(t) for t in inst["targets"]]}
+        if rng.random() < 0.6:
+            sib["o"][1] = rng.choice([n for n in (3, 4, 5, 6) if n != inst["o"][1]])
+        else:
+            sib["targets"][0][1] = rng.choice([n for n in (3, 4, 5, 6) if n != sib["targets"][0][1]])
+        runner.solve_synthetic(sib, tab)
     return runner.solve_synthetic(inst, tab)
 
 
